@@ -68,6 +68,23 @@ TSelect == /\ IsEvent("Select")
                    \* anti-vacuity: the listed nonces are a cycle under the definition they were found in
                    /\ Accept(GraphOf([variant |-> Ev.cycle_of, K |-> Ev.K, N |-> Ev.N, ends |-> Ev.ends_by[Ev.cycle_of]]), Ev.nonces)
 
+\* create_pow_context where no cycle can be searched (28..31 edge bits): the harness observes WHICH
+\* verifier was built by comparing its behaviour on a battery of probe tuples with the behaviour of
+\* the five verifiers built directly (pow::new_*_ctx); "none": no verifier (an error is returned)
+TSelectKind == /\ IsEvent("SelectKind")
+               /\ UNCHANGED <<g, path, closed>>
+               /\ Ev.chain \in Chains
+               /\ Ev.version \in 1..5
+               /\ Ev.probes >= 5
+               /\ Ev.observed = SelectVariant(Ev.chain, Ev.version, Ev.eb)
+
+\* consensus::graph_weight(height, edge_bits) under the chain type's reference size
+TWeight == /\ IsEvent("Weight")
+           /\ UNCHANGED <<g, path, closed>>
+           /\ Ev.base = BaseEdgeBits(Ev.chain)
+           /\ Ev.eb >= Ev.base
+           /\ Ev.weight = GraphWeight(Ev.base, Ev.eb, Ev.height)
+
 \* pow::verify_size(header): the header was built by the harness for a plan of MC_CuckooSize
 \* (chain type, real header version of its height, edge bits, nonce list of the plan's length class
 \* and shape). The verdict must be VerifySizeVerdict on my endpoints of the listed nonces, with the
@@ -103,7 +120,7 @@ TVerifySize ==
                 /\ \A j \in JunctionsOf(GB(Ev.gof), S) : GoodJunction(GB(Ev.gof), S, j)
                 /\ ~Connected(GB(Ev.gof), S)
 
-TNext == TVerify \/ TPack \/ TSelect \/ TVerifySize
+TNext == TVerify \/ TPack \/ TSelect \/ TSelectKind \/ TWeight \/ TVerifySize
 TSpec == TInit /\ [][TNext]_tvars
 
 Accepted == LET d == TLCGet("stats").diameter IN
